@@ -11,4 +11,324 @@ theorem quarter_cases' (k : Int) :
   have h : k % 4 = 0 ∨ k % 4 = 1 ∨ k % 4 = 2 ∨ k % 4 = 3 := by omega
   rcases h with h | h | h | h <;> simp [h]
 
+theorem allLt_false_iff (n : Nat) (p : Nat → Bool) : allLt n p = false ↔ ∃ a, a < n ∧ p a = false := by
+  constructor
+  · intro h
+    by_contra hc
+    have : ∀ a, a < n → p a = true := by
+      intro a ha
+      by_contra hp
+      exact hc ⟨a, ha, by simpa using hp⟩
+    rw [(allLt_iff n p).mpr this] at h
+    cases h
+  · rintro ⟨a, ha, hp⟩
+    exact allLt_false_of n p a ha hp
+
+/-- what the constructor returns when it accepts -/
+def normalised (p1 p2 : List Rat) (d u : List String) (tol : Rat) : Region :=
+  { pmin := tab p1.length fun a => min (p1.getD a 0) (p2.getD a 0),
+    pmax := tab p1.length fun a => max (p1.getD a 0) (p2.getD a 0),
+    dims := d, units := u, tol := tol }
+
+theorem dimsOk_some (n : Nat) (d : List String) (hd : d.length = n) (hdup : hasDup d = false) :
+    Region.dimsOk n (some d) = .ok d := by
+  simp [Region.dimsOk, hd, hdup]
+
+theorem dimsOk_some_inv (n : Nat) (d d' : List String) (h : Region.dimsOk n (some d) = .ok d') :
+    d.length = n ∧ hasDup d = false ∧ d' = d := by
+  simp only [Region.dimsOk] at h
+  split at h
+  · cases h
+  · rename_i hd
+    split at h
+    · cases h
+    · rename_i hdup
+      injection h with h
+      exact ⟨not_not.mp hd, by simpa using hdup, h.symm⟩
+
+theorem unitsOk_some (n : Nat) (u : List String) (hu : u.length = n) : Region.unitsOk n (some u) = .ok u := by
+  simp [Region.unitsOk, hu]
+
+theorem unitsOk_some_inv (n : Nat) (u u' : List String) (h : Region.unitsOk n (some u) = .ok u') :
+    u.length = n ∧ u' = u := by
+  simp only [Region.unitsOk] at h
+  split at h
+  · cases h
+  · rename_i hu
+    injection h with h
+    exact ⟨not_not.mp hu, h.symm⟩
+
+theorem mk?_ok_of (p1 p2 : List Rat) (d u : List String) (tol : Rat)
+    (hl : p1.length = p2.length) (h0 : p1.length ≠ 0) (hd : d.length = p1.length)
+    (hdup : hasDup d = false) (hu : u.length = p1.length)
+    (hne : ∀ a, a < p1.length → p1.getD a 0 ≠ p2.getD a 0) :
+    Region.mk? p1 p2 (some d) (some u) tol = .ok (normalised p1 p2 d u tol) := by
+  have hall : allLt p1.length (fun a => decide (p1.getD a 0 ≠ p2.getD a 0)) = true := by
+    rw [allLt_iff]; intro a ha; simpa using hne a ha
+  unfold Region.mk?
+  rw [if_neg (not_not.mpr hl), if_neg h0, dimsOk_some _ _ hd hdup, unitsOk_some _ _ hu]
+  simp only [hall]
+  rfl
+
+theorem mk?_ok_inv (p1 p2 : List Rat) (d u : List String) (tol : Rat) (r : Region)
+    (h : Region.mk? p1 p2 (some d) (some u) tol = .ok r) :
+    p1.length = p2.length ∧ p1.length ≠ 0 ∧ d.length = p1.length ∧ hasDup d = false ∧ u.length = p1.length ∧
+    (∀ a, a < p1.length → p1.getD a 0 ≠ p2.getD a 0) ∧ r = normalised p1 p2 d u tol := by
+  unfold Region.mk? at h
+  split at h
+  · cases h
+  · rename_i hl
+    split at h
+    · cases h
+    · rename_i h0
+      split at h
+      · cases h
+      · rename_i d' hd'
+        obtain ⟨hd, hdup, rfl⟩ := dimsOk_some_inv _ _ _ hd'
+        split at h
+        · cases h
+        · rename_i u' hu'
+          obtain ⟨hu, rfl⟩ := unitsOk_some_inv _ _ _ hu'
+          split at h
+          · cases h
+          · rename_i hall
+            injection h with h
+            refine ⟨not_not.mp hl, h0, hd, hdup, hu, ?_, h.symm⟩
+            intro a ha
+            have hall' : allLt p1.length (fun a => decide (p1.getD a 0 ≠ p2.getD a 0)) = true := by
+              simpa using hall
+            have := (allLt_iff _ _).mp hall' a ha
+            simpa using this
+
+
+/-- the state both forms end in: new corners ordered per axis, new units -/
+def target (r : Region) (lo' hi' : Nat → Rat) (units : List String) : Region :=
+  { r with pmin := tab r.ndim fun a => min (lo' a) (hi' a),
+           pmax := tab r.ndim fun a => max (lo' a) (hi' a), units := units }
+
+theorem target_ndim (r : Region) (lo' hi' : Nat → Rat) (units : List String) :
+    (target r lo' hi' units).ndim = r.ndim := by simp [target, Region.ndim]
+
+theorem target_lo (r : Region) (lo' hi' : Nat → Rat) (units : List String) (a : Nat) (ha : a < r.ndim) :
+    (target r lo' hi' units).lo a = min (lo' a) (hi' a) := by
+  simp only [Region.lo, target]; rw [getD_tab _ _ _ _ ha]
+
+theorem target_hi (r : Region) (lo' hi' : Nat → Rat) (units : List String) (a : Nat) (ha : a < r.ndim) :
+    (target r lo' hi' units).hi a = max (lo' a) (hi' a) := by
+  simp only [Region.hi, target]; rw [getD_tab _ _ _ _ ha]
+
+theorem target_inv (r : Region) (hr : r.Inv) (lo' hi' : Nat → Rat) (units : List String)
+    (hu : units.length = r.ndim) (hne : ∀ a, a < r.ndim → lo' a ≠ hi' a) : (target r lo' hi' units).Inv := by
+  obtain ⟨h0, h1, h2, h3, h4, h5⟩ := hr
+  refine ⟨by simpa [target, Region.ndim] using h0, by simp [target], by simpa [target, Region.ndim] using h2,
+    by simpa [target, Region.ndim] using hu, h4, ?_⟩
+  intro a ha
+  have ha' : a < r.ndim := by simpa [target, Region.ndim] using ha
+  rw [target_lo _ _ _ _ _ ha', target_hi _ _ _ _ _ ha']
+  rcases lt_or_gt_of_ne (hne a ha') with h | h
+  · rw [min_eq_left h.le, max_eq_right h.le]; exact h
+  · rw [min_eq_right h.le, max_eq_left h.le]; exact h
+
+theorem viaCtor_ok (r : Region) (hr : r.Inv) (lo' hi' : Nat → Rat) (units : List String)
+    (hu : units.length = r.ndim) (hne : ∀ a, a < r.ndim → lo' a ≠ hi' a) :
+    viaCtor r (tab r.ndim lo') (tab r.ndim hi') units = .ok (target r lo' hi' units) := by
+  obtain ⟨h0, h1, h2, h3, h4, h5⟩ := hr
+  unfold viaCtor
+  rw [mk?_ok_of _ _ _ _ _ (by simp) (by rw [tab_length]; exact Nat.pos_iff_ne_zero.mp h0) (by simpa [Region.ndim] using h2) h4
+    (by simpa using hu)]
+  · congr 1
+    unfold normalised target
+    simp only [tab_length]
+    congr 1
+    · apply tab_congr; intro a ha; rw [getD_tab _ _ _ _ ha, getD_tab _ _ _ _ ha]
+    · apply tab_congr; intro a ha; rw [getD_tab _ _ _ _ ha, getD_tab _ _ _ _ ha]
+  · intro a ha
+    have ha' : a < r.ndim := by simpa using ha
+    rw [getD_tab _ _ _ _ ha', getD_tab _ _ _ _ ha']
+    exact hne a ha'
+
+theorem viaCtor_err (r : Region) (lo' hi' : Nat → Rat) (units : List String) (a : Nat) (ha : a < r.ndim)
+    (heq : lo' a = hi' a) : ∃ e, viaCtor r (tab r.ndim lo') (tab r.ndim hi') units = .error e := by
+  cases h : viaCtor r (tab r.ndim lo') (tab r.ndim hi') units with
+  | error e => exact ⟨e, rfl⟩
+  | ok r' =>
+    obtain ⟨_, _, _, _, _, hne, _⟩ := mk?_ok_inv _ _ _ _ _ _ h
+    have := hne a (by simpa using ha)
+    rw [getD_tab _ _ _ _ ha, getD_tab _ _ _ _ ha] at this
+    exact absurd heq this
+
+
+theorem dim2index_lt (r : Region) (d : String) (i : Nat) (h : r.dim2index d = .ok i) : i < r.dims.length := by
+  unfold Region.dim2index at h
+  split at h
+  · rename_i k hk
+    injection h with h; subst h
+    -- indexOf?.go returns an index below the length (offset 0)
+    have key : ∀ (xs : List String) (off k : Nat), indexOf?.go d xs off = some k → k < off + xs.length ∧ off ≤ k := by
+      intro xs
+      induction xs with
+      | nil => intro off k h; simp [indexOf?.go] at h
+      | cons y ys ih =>
+        intro off k h
+        simp only [indexOf?.go] at h
+        split at h
+        · injection h with h; subst h; simp
+        · have := ih (off + 1) k h
+          simp only [List.length_cons]; omega
+    have := key r.dims 0 k hk
+    omega
+  · cases h
+
+theorem translate_forms (r : Region) (hr : r.Inv) (v : List Rat) (hv : v.length = r.ndim) :
+    translateR r v true = .ok (target r (fun a => r.lo a + v.getD a 0) (fun a => r.hi a + v.getD a 0) r.units,
+                              target r (fun a => r.lo a + v.getD a 0) (fun a => r.hi a + v.getD a 0) r.units) ∧
+    translateR r v false = .ok (r, target r (fun a => r.lo a + v.getD a 0) (fun a => r.hi a + v.getD a 0) r.units) := by
+  have hlt : ∀ a, a < r.ndim → r.lo a + v.getD a 0 < r.hi a + v.getD a 0 := by
+    intro a ha; have := hr.2.2.2.2.2 a ha; linarith
+  have hne : ∀ a, a < r.ndim → r.lo a + v.getD a 0 ≠ r.hi a + v.getD a 0 := fun a ha => (hlt a ha).ne
+  have htarget : ({ r with pmin := tab r.ndim fun a => r.lo a + v.getD a 0,
+                           pmax := tab r.ndim fun a => r.hi a + v.getD a 0 } : Region)
+      = target r (fun a => r.lo a + v.getD a 0) (fun a => r.hi a + v.getD a 0) r.units := by
+    unfold target
+    congr 1
+    · apply tab_congr; intro a ha; exact (min_eq_left (hlt a ha).le).symm
+    · apply tab_congr; intro a ha; exact (max_eq_right (hlt a ha).le).symm
+  have hall : allLt r.ndim (fun a => decide ((r.hi a + v.getD a 0) - (r.lo a + v.getD a 0) ≠ 0)) = true := by
+    rw [allLt_iff]; intro a ha
+    have := hlt a ha
+    simp only [decide_eq_true_eq]; intro h; linarith
+  constructor
+  · unfold translateR
+    rw [if_neg (not_not.mpr hv)]
+    simp only [if_true, hall, Bool.not_true, Bool.false_eq_true, if_false, htarget]
+  · unfold translateR
+    rw [if_neg (not_not.mpr hv)]
+    simp only [Bool.false_eq_true, if_false]
+    rw [viaCtor_ok r hr _ _ r.units hr.2.2.2.1 hne]
+
+theorem translate_reject (r : Region) (v : List Rat) (hv : v.length ≠ r.ndim) (b : Bool) :
+    translateR r v b = .error .value := by
+  unfold translateR; rw [if_pos hv]
+
+
+theorem scale_forms_ok (r : Region) (hr : r.Inv) (f : Factor) (ref : Option (List Rat))
+    (hf : f.okFor r.ndim = true) (href : (ref.getD r.center).length = r.ndim)
+    (hne : ∀ a, a < r.ndim → scaleLo r f (ref.getD r.center) a ≠ scaleHi r f (ref.getD r.center) a) :
+    scaleR r f ref true = .ok (target r (scaleLo r f (ref.getD r.center)) (scaleHi r f (ref.getD r.center)) r.units,
+                               target r (scaleLo r f (ref.getD r.center)) (scaleHi r f (ref.getD r.center)) r.units) ∧
+    scaleR r f ref false = .ok (r, target r (scaleLo r f (ref.getD r.center)) (scaleHi r f (ref.getD r.center)) r.units) := by
+  have hall : allLt r.ndim (fun a => decide (scaleHi r f (ref.getD r.center) a - scaleLo r f (ref.getD r.center) a ≠ 0)) = true := by
+    rw [allLt_iff]; intro a ha
+    have := hne a ha
+    simp only [decide_eq_true_eq]; intro h; apply this; linarith
+  constructor
+  · unfold scaleR
+    simp only [hf, Bool.not_true, Bool.false_eq_true, if_false, href, ne_eq, not_true_eq_false, if_true, hall]
+    rfl
+  · unfold scaleR
+    simp only [hf, Bool.not_true, Bool.false_eq_true, if_false, href, ne_eq, not_true_eq_false]
+    rw [viaCtor_ok r hr _ _ r.units hr.2.2.2.1 hne]
+
+theorem scale_forms_err (r : Region) (f : Factor) (ref : Option (List Rat))
+    (h : f.okFor r.ndim = false ∨ (ref.getD r.center).length ≠ r.ndim ∨
+      ∃ a, a < r.ndim ∧ scaleLo r f (ref.getD r.center) a = scaleHi r f (ref.getD r.center) a) :
+    (∃ e, scaleR r f ref true = .error e) ∧ (∃ e, scaleR r f ref false = .error e) := by
+  by_cases hf : f.okFor r.ndim = true
+  · by_cases href : (ref.getD r.center).length = r.ndim
+    · rcases h with h | h | ⟨a, ha, heq⟩
+      · rw [hf] at h; cases h
+      · exact absurd href h
+      · have hall : allLt r.ndim (fun a => decide (scaleHi r f (ref.getD r.center) a - scaleLo r f (ref.getD r.center) a ≠ 0)) = false := by
+          apply allLt_false_of _ _ a ha
+          simp [heq]
+        constructor
+        · refine ⟨.value, ?_⟩
+          unfold scaleR
+          simp only [hf, Bool.not_true, Bool.false_eq_true, if_false, href, ne_eq, not_true_eq_false, if_true, hall,
+            Bool.not_false]
+        · obtain ⟨e, he⟩ := viaCtor_err r _ _ r.units a ha heq
+          refine ⟨e, ?_⟩
+          unfold scaleR
+          simp only [hf, Bool.not_true, Bool.false_eq_true, if_false, href, ne_eq, not_true_eq_false]
+          rw [he]
+    · constructor <;> refine ⟨.value, ?_⟩ <;> unfold scaleR <;>
+        simp only [hf, Bool.not_true, Bool.false_eq_true, if_false, ne_eq, href, not_false_eq_true, if_true]
+  · have hf' : f.okFor r.ndim = false := by simpa using hf
+    constructor <;> refine ⟨.value, ?_⟩ <;> unfold scaleR <;> simp only [hf', Bool.not_false, if_true]
+
+
+theorem setAt_length {α} (xs : List α) (i : Nat) (a : α) : (setAt xs i a).length = xs.length := by
+  induction xs generalizing i with
+  | nil => simp [setAt]
+  | cons x xs ih => cases i <;> simp [setAt, ih]
+
+theorem swapAt_length {α} [Inhabited α] (xs : List α) (i j : Nat) : (swapAt xs i j).length = xs.length := by
+  simp [swapAt, setAt_length]
+
+theorem rotUnits_length (u : List String) (i1 i2 : Nat) (k : Int) : (rotUnits u i1 i2 k).length = u.length := by
+  unfold rotUnits; split <;> simp [swapAt_length]
+
+/-- rotated corners differ on every axis (the rotated region is not degenerate) -/
+theorem rotCoord_ne (r : Region) (hr : r.Inv) (ref : List Rat) (i1 i2 : Nat) (k : Int)
+    (h1 : i1 < r.ndim) (h2 : i2 < r.ndim) (a : Nat) (ha : a < r.ndim) :
+    rotCoord r.pmin ref i1 i2 k a ≠ rotCoord r.pmax ref i1 i2 k a := by
+  have e1 := hr.2.2.2.2.2 i1 h1
+  have e2 := hr.2.2.2.2.2 i2 h2
+  have ea := hr.2.2.2.2.2 a ha
+  unfold Region.lo Region.hi at e1 e2 ea
+  unfold rotCoord
+  rcases quarter_cases' k with ⟨hc, hs⟩ | ⟨hc, hs⟩ | ⟨hc, hs⟩ | ⟨hc, hs⟩ <;> rw [hc, hs] <;>
+    (split
+     · intro h; linarith
+     · split
+       · intro h; linarith
+       · intro h; linarith)
+
+theorem rot_forms_ok (r : Region) (hr : r.Inv) (ax1 ax2 : String) (k : Int) (ref : Option (List Rat))
+    (i1 i2 : Nat) (hax : ax1 ≠ ax2) (href : (ref.getD r.center).length = r.ndim)
+    (h1 : r.dim2index ax1 = .ok i1) (h2 : r.dim2index ax2 = .ok i2) :
+    rotate90R r ax1 ax2 k ref true
+      = .ok (target r (rotCoord r.pmin (ref.getD r.center) i1 i2 k) (rotCoord r.pmax (ref.getD r.center) i1 i2 k) (rotUnits r.units i1 i2 k),
+             target r (rotCoord r.pmin (ref.getD r.center) i1 i2 k) (rotCoord r.pmax (ref.getD r.center) i1 i2 k) (rotUnits r.units i1 i2 k)) ∧
+    rotate90R r ax1 ax2 k ref false
+      = .ok (r, target r (rotCoord r.pmin (ref.getD r.center) i1 i2 k) (rotCoord r.pmax (ref.getD r.center) i1 i2 k) (rotUnits r.units i1 i2 k)) := by
+  have hd : r.dims.length = r.ndim := hr.2.2.1
+  have l1 : i1 < r.ndim := hd ▸ dim2index_lt r ax1 i1 h1
+  have l2 : i2 < r.ndim := hd ▸ dim2index_lt r ax2 i2 h2
+  have hne := rotCoord_ne r hr (ref.getD r.center) i1 i2 k l1 l2
+  have hall : allLt r.ndim (fun a => decide (rotCoord r.pmax (ref.getD r.center) i1 i2 k a - rotCoord r.pmin (ref.getD r.center) i1 i2 k a ≠ 0)) = true := by
+    rw [allLt_iff]; intro a ha
+    have := hne a ha
+    simp only [decide_eq_true_eq]; intro h; apply this; linarith
+  have hu : (rotUnits r.units i1 i2 k).length = r.ndim := by rw [rotUnits_length]; exact hr.2.2.2.1
+  constructor
+  · unfold rotate90R
+    rw [if_neg hax, if_neg (not_not.mpr href), h1, h2]
+    simp only [if_true, hall, Bool.not_true, Bool.false_eq_true, if_false]
+    rfl
+  · unfold rotate90R
+    rw [if_neg hax, if_neg (not_not.mpr href), h1, h2]
+    simp only [Bool.false_eq_true, if_false]
+    rw [viaCtor_ok r hr _ _ _ hu hne]
+
+theorem rot_forms_err (r : Region) (ax1 ax2 : String) (k : Int) (ref : Option (List Rat))
+    (h : ax1 = ax2 ∨ (ref.getD r.center).length ≠ r.ndim ∨ (∃ e, r.dim2index ax1 = .error e) ∨ (∃ e, r.dim2index ax2 = .error e))
+    (b : Bool) : ∃ e, rotate90R r ax1 ax2 k ref b = .error e := by
+  unfold rotate90R
+  by_cases hax : ax1 = ax2
+  · exact ⟨.value, by rw [if_pos hax]⟩
+  · rw [if_neg hax]
+    by_cases href : (ref.getD r.center).length = r.ndim
+    · rw [if_neg (not_not.mpr href)]
+      rcases h with h | h | ⟨e, he⟩ | ⟨e, he⟩
+      · exact absurd h hax
+      · exact absurd href h
+      · rw [he]; exact ⟨e, rfl⟩
+      · rw [he]
+        cases hh : r.dim2index ax1 with
+        | error e' => exact ⟨e', rfl⟩
+        | ok i => exact ⟨e, rfl⟩
+    · exact ⟨.value, by rw [if_pos href]⟩
+
+
 end DFV.T
